@@ -34,6 +34,11 @@ def gen_tile(rng, mode, pattern):
     if np.dtype(dt).kind == "f":
         scale = rng.choice([1.0, 1e-3, 1e6])
         a = (rng.normal(size=(256, 256)) * scale + rng.choice([0.0, 5.0 * scale])).astype(dt)
+        k = rng.random()
+        if k < 0.12:
+            a[:] = np.inf  # defined, but no finite value at all (only NaN means undefined)
+        elif k < 0.2:
+            a[rng.random((256, 256)) < 0.5] = -np.inf
         _apply_pattern(rng, a, pattern, lambda m: a.__setitem__(m, np.nan))
         return a
     # full dynamic range of the type in half of the tiles (means of large 32-bit values are not exact in float32)
@@ -189,8 +194,15 @@ def compare_parent(got, ref):
             idx = np.argwhere(gn != rn)[0]
             return "%d pixels defined/undefined contrary to the NaN-mean (first %s: got %s, mean of block %s)" % (int((gn != rn).sum()), idx.tolist(), got[tuple(idx)], mean[tuple(idx)])
         eps = float(np.finfo(mos.dtype).eps)
-        err = np.abs(np.where(gn, 0, got.astype(np.float64) - np.where(rn, 0, mean)))
-        tol = 4 * eps * np.maximum(mag, np.finfo(mos.dtype).tiny) + 1e-300
+        g64 = got.astype(np.float64)
+        same_inf = np.isinf(g64) & np.isinf(mean) & (np.sign(g64) == np.sign(mean))
+        with np.errstate(invalid="ignore", over="ignore"):
+            # values beyond the dtype's range overflow to inf when cast: accept
+            lim = float(np.finfo(mos.dtype).max)
+            same_inf |= np.isinf(g64) & (np.abs(mean) > lim) & (np.sign(g64) == np.sign(mean))
+            err = np.abs(np.where(gn | same_inf, 0, g64 - np.where(rn | same_inf, 0, mean)))
+        err = np.where(np.isnan(err), np.inf, err)
+        tol = 4 * eps * np.maximum(np.where(np.isfinite(mag), mag, 0), np.finfo(mos.dtype).tiny) + 1e-300
         if (err > tol).any():
             idx = np.argwhere(err > tol)[0]
             return "%d pixels differ from the NaN-mean of their 2x2 block (first %s: got %r, expected %r)" % (int((err > tol).sum()), idx.tolist(), got[tuple(idx)], mean[tuple(idx)])
